@@ -1250,7 +1250,11 @@ class Converter:
                 continue
             if isinstance(value, str):
                 prefix_map[key] = value
-            elif isinstance(value, dict) and value.get("@prefix") is True:
+            elif (
+                isinstance(value, dict)
+                and value.get("@prefix") is True
+                and isinstance(value.get("@id"), str)
+            ):
                 prefix_map[key] = value["@id"]
         return cls.from_prefix_map(prefix_map, **kwargs)
 
